@@ -43,6 +43,13 @@ type goHolder struct {
 	F   func(int) int
 }
 
+// Boom fails with a Go runtime error (nil dereference) - a defect of the callee, not of the engine
+func (goHolder) Boom() *goHolder {
+	var p *goHolder
+	_ = p.Arr[0]
+	return p
+}
+
 type nInt int
 type nBool bool
 type nFloat float64
@@ -232,6 +239,8 @@ func decodeVal(x *sx.Sexp) interface{} {
 			return (<-chan int)(c)
 		case "holder":
 			return goHolder{Arr: [2]string{"x<", "y"}}
+		case "ifacemap":
+			return map[interface{}]int{1: 10, "a": 11, [2]int{1, 2}: 12}
 		}
 		panic("unknown goval " + x.Xs[1].A)
 	case "named":
